@@ -12,7 +12,7 @@ use syn::{
 use crate::{
     bound::{Bound, Bounds, WhereClauseBuilder},
     common::BinaryOp,
-    syn_utils::{atomic_type, expand_self, self_type},
+    syn_utils::{atomic_type, expand_self, parenthesize_fragments, self_type},
 };
 
 use self::compare_op::{
@@ -1503,10 +1503,12 @@ impl HelperAttributeForDefault {
             )
         }
         if let Some(e) = &self.value {
-            return Some(if need_into(e) {
+            let into = need_into(e);
+            let e = parenthesize_fragments(quote!(#e));
+            return Some(if into {
                 quote!(::core::convert::Into::<#ty>::into(#e))
             } else {
-                quote!(#e)
+                e
             });
         }
         None
